@@ -62,7 +62,8 @@ __CPROVER_requires(VALID_TAG(&m->value) && __exc == 0 && __caught_n == 0 && GLOB
 __CPROVER_assigns(__CPROVER_object_whole(this))
 PROP(C01, C14) __CPROVER_ensures(OK)
 /* the value is a deep copy (Value::clone) marked as owned storage */
-PROP(C14) __CPROVER_ensures(V_MAJOR(&this->value) == V_MAJOR(&m->value) && V_MINOR(&this->value) == V_MINOR(&m->value) && V_LEVEL(&this->value) == V_LEVEL(&m->value) &&
+/* (C05: the copied variable is owned storage -- evaluating an expression over it must not consume it) */
+PROP(C05, C14) __CPROVER_ensures(V_MAJOR(&this->value) == V_MAJOR(&m->value) && V_MINOR(&this->value) == V_MINOR(&m->value) && V_LEVEL(&this->value) == V_LEVEL(&m->value) &&
                             this->value._flags == ((m->value._flags & F_NOTNULL) | F_LVALUE))
 /* the symbol is a new object with the same declaration */
 PROP(C14) __CPROVER_ensures(this->symbol != 0 && this->symbol != m->symbol && this->symbol->_id == M_SYM->_id && this->symbol->_base_Type._major == M_SYM->_base_Type._major &&
